@@ -283,7 +283,10 @@ def tie_policy(ctx):
                out[-800:] if bad is None else f"differs on {[rows[i] for i in bad[:4]]}")
     # which policy shape the current code has (decided by the AST shape check of the regen unit): the strong theorem
     # C16_default_policy_returns_input is about the restoring shape
-    gen = open(os.path.join(common.COQ, "gen", "GenPolicy.v")).read()
+    try:
+        gen = open(os.path.join(common.COQ, "gen", "GenPolicy.v")).read()
+    except OSError:
+        gen = ""
     restores = "Definition failure_policy_restores_input : bool := true." in gen
     ctx.oblige("tie:current-code-restores-the-un-optimised-model-on-a-non-fatal-optimizer-failure(failure_policy_restores_input = true)", restores, "tie",
                "" if restores else "the policy keeps the partially optimised model: an exception raised inside a pass leaves an inconsistent graph")
@@ -313,7 +316,7 @@ def tie_policy(ctx):
         same, after = False, f"raised {type(e).__name__}: {e}"
     finally:
         opt._OPTIMIZER_PASSES = saved
-    if restores and not same:
+    if not same:
         ctx.violate("policy-restore vandal-pass", f"after a pass that mutated the graph and raised, the default policy returned {after} instead of the input {before}",
                     {"kind": "policy_restore", "before": before, "after": str(after)})
     # the same for FUNCTION bodies: a function-scoped pass that mutates an @onnx_function body and raises
@@ -340,7 +343,7 @@ def tie_policy(ctx):
                 fn_same = False
             finally:
                 opt._OPTIMIZER_PASSES = saved
-            if restores and not fn_same:
+            if not fn_same:
                 ctx.violate("policy-restore vandal-pass function-body",
                             "after a function-scoped pass that mutated an @onnx_function body and raised, the default policy returned a model whose serialisation "
                             "differs from the input (function bodies were not restored)", {"kind": "policy_restore_fn", "program": "x:nested_onnx_functions"})
